@@ -19,6 +19,7 @@ import Rl.Lemmas.EditorPop
 import Rl.Lemmas.EditorPopLocal
 import Rl.Lemmas.EditorKillReports
 import Rl.Lemmas.EditorLog
+import Rl.Lemmas.EditorLogViLoops
 open Rl
 
 /-- A successful read of one byte consumes exactly one byte of the input (buffer, kernel queue or
@@ -93,7 +94,7 @@ theorem C17_decoder_io_only_at_end (i : Input) (sea : Bool) (h : 36 ≤ i.size) 
     acceptable, `BindsI`; and the conclusion allows the one real panic, D43):
     **`C17_editor_no_panic_emacs`** — in emacs mode, if `readline` ends with the panic outcome then its
     final state has a last insertion longer than 65535 bytes — no further hypothesis; and
-    **`C17_editor_no_panic`** — the same for both modes, where vi mode still assumes `ViPreKeeps` (the
+    **`C17_editor_no_panic_both`** — the same for both modes with no further hypothesis (`ViPreKeeps`, the
     dispatch loop keeps the undo-log invariant; everything else is proved for vi as well).  Covered:
     `next_cmd` in both modes (`C17_next_cmd`, `C17_next_cmd_returns`), every command (`Undo` from the
     undo-log invariant `UndoLogInv`, `YankPop` from `PopOK`, both carried through the read), all
@@ -518,15 +519,15 @@ theorem C17_open_emacs (S : Segmenter) (U : UData) (cfg : EdCfg) (hvi : cfg.vi =
     C17_Open S U cfg UndoLogInv :=
   C17_open_of_pre S U cfg hnp (logJ_preCmds S U cfg ⟨hnp, hb, hcomp⟩ hvi)
 
-/-- the ONE fact the vi-mode theorem still assumes: the dispatch loop (a completion or an incremental
-    search, whatever is typed inside it, aborted or not) keeps the undo-log invariant.  Proved in emacs
-    mode (`logJ_preCmds`).  In vi mode every step inside the sub-loops keeps it too (`logK_nextCmd`,
-    `logK_lb`, the markers) EXCEPT, unproved, the abort after a key that left insert mode: `end()` has
-    popped the sub-loop's `Begin`, so the listener may MERGE what the sub-loop logs into the entry below
-    the mark (finding D49: `x y Backspace C-r C-s a a Alt-X C-r Alt-X C-g u` gives "xyx", not "xy"); the
-    remaining log then replays to a proper PREFIX of the line (here to "" with the line "x"), which still
-    satisfies `UndoLogInv` because replay is invariant under a suffix of the start text — the argument is
-    not formalized. -/
+/-- the fact the vi-mode theorem `C17_editor_no_panic` takes as a hypothesis: the dispatch loop (a
+    completion or an incremental search, whatever is typed inside it, aborted or not) keeps the undo-log
+    invariant.  It is PROVED for both modes as `C17_vi_pre_keeps` (round 16, below), so
+    `C17_editor_no_panic_both` carries no such hypothesis.  The delicate case is the abort after a key
+    that left insert mode: `end()` has popped the sub-loop's `Begin`, so the listener may MERGE what the
+    sub-loop logs into the entry below the mark (finding D49: `x y Backspace C-r C-s a a Alt-X C-r Alt-X
+    C-g u` gives "xyx", not "xy"); the remaining log then replays to a proper PREFIX of the line (here to
+    "" with the line "x"), which still satisfies `UndoLogInv` because replay is invariant under a suffix
+    of the start text (`BotGood`, Lemmas/EditorLogViLoops.lean). -/
 def ViPreKeeps (S : Segmenter) (U : UData) (cfg : EdCfg) : Prop :=
   ∀ fuel cmd s, RdInv cfg s → UndoLogInv s →
     wp (preCmds S U cfg fuel cmd) (fun _ s' => UndoLogInv s') (fun _ _ => True) s
@@ -624,3 +625,79 @@ theorem C17_completer_start_beyond_cursor_panics (S : Segmenter) (U : UData) (fu
 example :
     (({ buf := [], avail := [], future := [[0x1b, 0x5b, 0x31, 0x3b, 0x35, 0x43], [0x61]] } : Input).nextKey false).toOption.map
       (fun r => (r.1, r.2.size)) = some (⟨.right, 8⟩, 1) := by decide
+
+/-- **`ViPreKeeps` is PROVED** (round 16): the dispatch loop — a circular or list completion, an
+    incremental search, whatever is typed inside them, aborted or not — keeps the undo-log invariant
+    `UndoLogInv` in BOTH modes, for a hinter that does not panic, acceptable bindings (`BindsI`) and a
+    completer that reports a start on a character boundary at or before the cursor (the three facts the
+    read invariant `RdInv` needs to get through the sub-loops; no assumption on the mode, on what `Abort`
+    or `Esc` are bound to, or on the segmenter).  The proof is mode-generic (`logJ_preCmds_both`):
+    `next_cmd` changes the log by group-marker operations only (`mkK_nextCmd`); the search carries "the
+    bottom `mark` entries replay some text to a PREFIX of the backed-up line" (`BotGood`: kept by the
+    markers and by `mark.min(len)`; `update`'s `Delete(0, line)` can merge into the entry below the mark
+    only when nothing lies above it, and then the bottom replays to the empty text — finding D49 is exactly
+    this case; `botGood_update`), so after the abort's cut the log replays to a prefix of the restored line
+    (`undoLogInv_of_prefix`); the completion logs its first `replace` before it reads a key, so `end()` never
+    finds the loop's `Begin` on top (`AboveNB`), the mark is never lowered and the abort's cut restores
+    exactly the log before the loop. -/
+theorem C17_vi_pre_keeps (S : Segmenter) (U : UData) (cfg : EdCfg)
+    (hnp : cfg.hinterPanicAt = none) (hb : BindsI cfg)
+    (hcomp : ∀ t p, IsBoundary t (cfg.completer t p).1 ∧ (cfg.completer t p).1 ≤ p) :
+    ViPreKeeps S U cfg :=
+  logJ_preCmds_both S U cfg ⟨hnp, hb, hcomp⟩
+
+/-- the open obligations `C17_Open` DISCHARGED in both modes with `J := UndoLogInv` (the emacs-only
+    `C17_open_emacs` without its mode hypothesis) -/
+theorem C17_open_both (S : Segmenter) (U : UData) (cfg : EdCfg)
+    (hnp : cfg.hinterPanicAt = none) (hb : BindsI cfg)
+    (hcomp : ∀ t p, IsBoundary t (cfg.completer t p).1 ∧ (cfg.completer t p).1 ≤ p) :
+    C17_Open S U cfg UndoLogInv :=
+  C17_open_of_pre S U cfg hnp (C17_vi_pre_keeps S U cfg hnp hb hcomp)
+
+/-- **The only panic of a whole read is D43 — emacs AND vi mode, no open obligation, no `ViPreKeeps`**:
+    for a validator and a hinter that do not panic, an indent size that fits the code's `u8`, a completer
+    that reports a start on a character boundary at or before the cursor, a stable segmenter and acceptable
+    bindings (`BindsI`: a bound `ReplaceChar` count fits `u16`, `YankPop` is not bound in vi mode, `Replace`
+    / `ViYankTo` are not bound in emacs mode), if `readline` (initial text `left`/`right`, any input, a fresh
+    kill ring of 60 slots) ends with the panic outcome then its final state has a last insertion longer
+    than 65535 bytes (known finding D43: the re-do of vi's `R`).  This is `C17_editor_no_panic` with its
+    vi-mode hypothesis `hvi` proved (`C17_vi_pre_keeps`). -/
+theorem C17_editor_no_panic_both (S : Segmenter) (U : UData) (cfg : EdCfg) (left right : Text) (inp : Input)
+    (hv : ∀ t, cfg.validator t ≠ .panic) (hnp : cfg.hinterPanicAt = none)
+    (hcomp : ∀ t p, IsBoundary t (cfg.completer t p).1 ∧ (cfg.completer t p).1 ≤ p)
+    (hind : cfg.indentSize ≤ 255) (hS : S.Stable) (hb : BindsI cfg) :
+    (readline S U cfg (KillRing.new 60) left right inp).1 = .panic →
+      D43 (readline S U cfg (KillRing.new 60) left right inp).2 :=
+  C17_editor_no_panic S U cfg left right inp hv hnp hcomp hind hS hb
+    (fun _ => C17_vi_pre_keeps S U cfg hnp hb hcomp)
+
+/-- the same as a no-panic statement, both modes: a read that does not end in a D43 state does not panic -/
+theorem C17_editor_no_panic_both_of_no_D43 (S : Segmenter) (U : UData) (cfg : EdCfg) (left right : Text)
+    (inp : Input) (hv : ∀ t, cfg.validator t ≠ .panic) (hnp : cfg.hinterPanicAt = none)
+    (hcomp : ∀ t p, IsBoundary t (cfg.completer t p).1 ∧ (cfg.completer t p).1 ≤ p)
+    (hind : cfg.indentSize ≤ 255) (hS : S.Stable) (hb : BindsI cfg)
+    (hd : ¬ D43 (readline S U cfg (KillRing.new 60) left right inp).2) :
+    (readline S U cfg (KillRing.new 60) left right inp).1 ≠ .panic :=
+  fun hp => hd (C17_editor_no_panic_both S U cfg left right inp hv hnp hcomp hind hS hb hp)
+
+/-- non-vacuity: the configuration hypotheses of `C17_editor_no_panic_both` hold for the default vi-mode
+    configuration (no helper, no custom bindings) -/
+example :
+    (∀ t, ({ vi := true } : EdCfg).validator t ≠ .panic) ∧ ({ vi := true } : EdCfg).hinterPanicAt = none ∧
+    (∀ t p, IsBoundary t (({ vi := true } : EdCfg).completer t p).1 ∧ (({ vi := true } : EdCfg).completer t p).1 ≤ p) ∧
+    ({ vi := true } : EdCfg).indentSize ≤ 255 ∧ BindsI { vi := true } :=
+  ⟨fun _ h => (by cases h), rfl, fun t p => ⟨⟨[], t, rfl, rfl⟩, Nat.zero_le p⟩, (by decide),
+   fun b hm => (by cases hm)⟩
+
+/-- non-vacuity of the D49 case of the search invariant (`botGood_update`): with the log
+    `[Delete(1,"y"), Insert(0,"xy")]`, the line "x" and the mark at the top of the log, `update("a")` merges
+    its `Delete(0,"x")` into the entry below the mark; the two bottom entries then replay "" to "" — a
+    proper prefix of the backed-up line "x" -/
+example :
+    let S : Segmenter := charSeg
+    let c : Changeset := { level := 0, undos := [.delete 1 ['y'], .insert 0 ['x', 'y']], redos := [] }
+    let c' := c.onNotifs S (fun _ => true) (updNotifs ['x'] ['a'])
+    c'.undos = [.insert 0 ['a'], .delete 0 ['x', 'y'], .insert 0 ['x', 'y']] ∧
+    replayLog (c'.undos.drop (c'.undos.length - 2)).reverse [] = some [] := by
+  decide
+
